@@ -20,7 +20,8 @@ CHECKS = {
             "Confidence equals the score recomputed from raw maps, seed and parameters, offsets <= maxPairDistance, segment spans fully accounted, no label paired twice in a record; "
             "Confidence of every written multi-pass record (incl. joined) = sum of the reported positions' scores; concrete Args.parse -> factory wiring confirmation."),
     "C12": ("5/C12", "Real AlignerEngine.align on <= 3 x 3 (quick) / 5 x 4 (thorough) labels, both strands, coincident labels, label-number offsets; all "
-            "coordinates, seed, window end, maxDistance symbolic; clauses (a)-(e) of the statement as validity queries per path."),
+            "coordinates, seed, window end, maxDistance symbolic; clauses (a)-(e) of the statement as validity queries per path; for small maps also after a previous "
+            "call of the same engine object on another reference with the same id (no state may leak between calls)."),
     "C13": ("5/C13", "Real getSegments on lists of <= 6 (quick) / 8 (thorough) scored positions with unbounded real scores and thresholds; each clause of the "
             "statement is one validity query per path, incl. the converse for the empty result."),
     "C14": ("5/C14", "Real SegmentChainer.chain with an arbitrary admissible scorer (<= 4/5 segments; maximality against every order-respecting subset in one "
@@ -37,11 +38,12 @@ CHECKS = {
     "C08": ("5/C08", "Real _MultiPassWorkflowCoordinator.execute run in the four multi-pass modes on the same symbolic first-/second-pass rows (real getUnalignedFragments, "
             "filterOut, resolve, check_overlap): file equalities between modes, joined-record justification and faithfulness, as structural facts plus validity queries."),
     "C16": ("5/C16", "Real vectorisePositions (<= 3/4 labels, <= 8 bins, symbolic start/end), blur (<= 6/8 symbolic bits, radius 0..4), toRelativeGenomicPositions (unbounded "
-            "symbolic bin/start), PeaksSelector.selectPeaks and CorrelationResult.createPeaks (symbolic scores/heights in object arrays)."),
+            "symbolic bin/start), the refinement window round trip OpticalMap.getSequence x toRelativeGenomicPositions as InitialAlignment.refine composes them (symbolic, "
+            "possibly negative window start), PeaksSelector.selectPeaks and CorrelationResult.createPeaks (symbolic scores/heights in object arrays)."),
     "C17": ("5/C17", "TRIM HALF ONLY is solver-decided: real OpticalMap.trim on maps of <= 5/8 symbolic labels (first label to 0, count and distances kept, length, idempotence). The "
             "CMAP reader half (pandas) cannot hold symbolic values: it is only exercised on one solver-chosen witness per path (shuffled rows, extra column, id filters) as a "
             "sampled public-API confirmation and is otherwise outside the claim."),
-    "C20": ("5/C20", "Real cluster_indels on <= 3/4 sorted calls (symbolic chromosome, interval, Length, blur), real write_indel_file with the text parsed back, real "
+    "C20": ("5/C20", "Real cluster_indels on <= 3/4 sorted calls (symbolic chromosome, interval, Length, blur), run twice on the same rows, real write_indel_file with the text parsed back, real "
             "look_for_indels_in_breakage of both indel finders with symbolic label coordinates."),
     "C09": ("5/C09", "REDUCTION, not schedules: (1) AlignerEngine.iteration (the only state a call leaves in a worker) is an arbitrary symbolic integer: no branch and no "
             "output term of the whole real Aligner.align mentions it, the aligner's object graph is otherwise unchanged, a second call returns the same record; (2) the real "
